@@ -453,6 +453,8 @@ Inductive c15_case :=
 | KQeOn (q : Q) (photon out : list Q)
 | KQeSel (sampling : bool) (arg char : option Q) (photon : list Q) (out : option (list Q))
                                                                      (* simple_conversion; None = raised *)
+| KQeMap (sampling : bool) (qs photon : list Q) (out : option (list Q))
+                                                                     (* conversion_with_qe_map: one efficiency per pixel *)
 | KFullWell (c : Q) (x : list Q) (out : option (list Q * list Q))   (* once, twice; None = raised *)
 | KFullWellS (arg char : option Q) (x : list Q) (out : option (list Q * list Q))
                                                                      (* simple_full_well, both capacity sources *)
@@ -489,6 +491,19 @@ Definition qe_on_ok (q p o : Q) : bool :=
   && (if Qeq_bool q 0 then Qeq_bool o 0 else true).
 Definition qe_off_ok (q p o : Q) : bool := Qeq_bool o (p * q) && Qle_bool 0 o && Qle_bool o p.
 
+Definition qe_in_range (q : Q) : bool := Qle_bool 0 q && Qle_bool q 1.
+
+Fixpoint all3 {A B C} (f : A -> B -> C -> bool) (l : list A) (m : list B) (n : list C) : bool :=
+  match l, m, n with
+  | [], [], [] => true
+  | x :: l', y :: m', z :: n' => f x y z && all3 f l' m' n'
+  | _, _, _ => false
+  end.
+
+(* conversion_with_qe_map: a map with a value outside [0, 1] is refused; otherwise pixel by pixel as apply_qe *)
+Definition qe_map_model (qs photon : list Q) : option (list Q) :=
+  if forallb qe_in_range qs then Some (map (fun qp => qe_off (fst qp) (snd qp)) (combine qs photon)) else None.
+
 Definition case_mismatch (c : c15_case) : bool :=
   negb match c with
   | KCollect p ch out => qeqs (qadd_list p ch) out && Nat.eqb (length p) (length ch)
@@ -501,6 +516,13 @@ Definition case_mismatch (c : c15_case) : bool :=
       match qe_select arg char, out with
       | None, None => true
       | Some q, Some o => if samp then Nat.eqb (length ph) (length o) else qeqs (map (qe_off q) ph) o
+      | _, _ => false
+      end
+  | KQeMap samp qs ph out =>
+      match qe_map_model qs ph, out with
+      | None, None => true
+      | Some m, Some o => Nat.eqb (length qs) (length ph)
+                          && (if samp then Nat.eqb (length ph) (length o) else qeqs m o)
       | _, _ => false
       end
   | KFullWell c x out =>
@@ -559,6 +581,11 @@ Definition case_violates (c : c15_case) : bool :=
       | Some q, _, Some o | None, Some q, Some o =>
           Qle_bool 0 q && Qle_bool q 1 && all2 (if samp then qe_on_ok q else qe_off_ok q) ph o
       | Some q, _, None | None, Some q, None => negb (Qle_bool 0 q && Qle_bool q 1)
+      end
+  | KQeMap samp qs ph out =>
+      match out with
+      | None => negb (forallb qe_in_range qs)
+      | Some o => forallb qe_in_range qs && all3 (if samp then qe_on_ok else qe_off_ok) qs ph o
       end
   | KFullWell c x out =>
       match out with
